@@ -190,7 +190,8 @@ func (w *worker[T, JobType]) releaseWaiters(processing uint32) {
 	}
 
 	// Only release waiters if worker is paused or if running with an empty queue
-	if w.IsPaused() || (w.IsRunning() && w.queues.Len() == 0) {
+	// (or stopped: Stop waits once more after it has claimed the stop)
+	if w.IsPaused() || w.IsStopped() || (w.IsRunning() && w.queues.Len() == 0) {
 		// Broadcast to all waiters to signal they can continue.
 		// The mutex is held so that the broadcast cannot fall between a waiter's
 		// check of its condition and its call to Wait (it would be lost).
